@@ -518,5 +518,81 @@ pub fn run(rep: &mut Report, thorough: bool) {
             rep.stage(&format!("rpc-msgtype-tcp-{}", tag), "ONC-RPC message type 1..255 x {reply body, GETPORT call words, DUMP call words} over TCP behind a valid cookie, the same record three times on the connection", 255 * 3, t0);
         }
     }
+    // one reply-typed MESSAGE in two TCP segments, cut at every offset (its tail must not be taken
+    // for the start of a request): portmapper replies with null / AUTH_SHORT verifiers, SMB1 / SMB2
+    // messages with the reply flag, a STUN success response of >= 256 bytes
+    {
+        let t0 = std::time::Instant::now();
+        let cfg = cfg_plain();
+        let f = flow4(40000, 80);
+        let cookies = learn_cookies(&cfg, &[f.clone()]).unwrap_or_default();
+        let c = cookies.get(&key_of(&f)).copied().unwrap_or(0).wrapping_add(1);
+        let mut streams: Vec<(String, Vec<u8>)> = Vec::new();
+        for (flavor, body) in [(0u32, vec![]), (2u32, vec![0x11u8, 0x22, 0x33, 0x44, 0x55, 0x66, 0x77, 0x88]), (2u32, vec![1u8, 0, 0, 0, 1, 0, 0, 0]), (1u32, vec![0x80u8, 0, 0, 0x28, 0x72, 0xfe, 0x1d, 0x13])] {
+            // accepted reply to a portmapper v2 DUMP: (program, version, protocol, port) entries
+            let mut b: Vec<u8> = Vec::new();
+            for w in [0x72fe1d13u32, 1, 0, flavor, body.len() as u32] {
+                b.extend_from_slice(&w.to_be_bytes());
+            }
+            b.extend_from_slice(&body);
+            for w in [0u32, 1, 100000, 2, 6, 111, 1, 100000, 3, 17, 111, 0] {
+                b.extend_from_slice(&w.to_be_bytes());
+            }
+            streams.push((format!("rpc-dump2-reply-verf{}-{}", flavor, body.len()), apprpc::with_record_mark(&b)));
+        }
+        let mut h1 = Smb1Hdr::new(0x72);
+        h1.flags = 0x98;
+        let mut h2 = Smb2Hdr::new(0);
+        h2.flags = 1;
+        streams.push(("smb1-negotiate-reply-flag".into(), appsmb::smb1_negotiate(&h1, &["NT LM 0.12"])));
+        streams.push(("smb2-negotiate-reply-flag".into(), appsmb::smb2_negotiate(&h2, &[0x0202, 0x0311], &[5; 16])));
+        let mut sr = stun_magic(&[stun_attr(0x8022, &[b'x'; 244]), stun_attr(1, &[0, 1, 0x9c, 0x40, 10, 0, 0, 9])].concat(), &ID12);
+        sr[0] = 0x01;
+        sr[1] = 0x01;
+        streams.push(("stun-success-response-256".into(), sr));
+        let mut plan: Vec<(usize, usize)> = Vec::new();
+        for (si, (_, s)) in streams.iter().enumerate() {
+            for k in 0..s.len() {
+                plan.push((si, k));
+            }
+        }
+        let opts = RunOpts::new("reply-typed-cuts").stateful().chunk(64).no_monitor();
+        let cfgc = cfg.clone();
+        engine::run(
+            &cfg,
+            plan.len() as u64,
+            &opts,
+            |i| {
+                let (si, k) = plan[i as usize];
+                let s = &streams[si].1;
+                if k == 0 {
+                    vec![Cmd::Frame(f.tcp(1000, c, F_PSH | F_ACK, s))]
+                } else {
+                    vec![Cmd::Frame(f.tcp(1000, c, F_PSH | F_ACK, &s[..k])), Cmd::Frame(f.tcp(1000 + k as u32, c, F_PSH | F_ACK, &s[k..]))]
+                }
+            },
+            |it: &Item, sk: &mut Sink| {
+                sk.count("frames", it.cmds.len() as u64 - 1);
+                let (si, k) = plan[it.idx as usize];
+                for (j, o) in it.outs.iter().enumerate().skip(1) {
+                    let data = o.reply.as_deref().and_then(crate::mask::app_payload).map(|(_, p)| p).unwrap_or_default();
+                    if !data.is_empty() {
+                        sk.violation(Violation {
+                            prop: "C12".into(),
+                            key: format!("reply-typed-answered:cut:{}", streams[si].0.split('-').next().unwrap_or("")),
+                            what: format!("reply-typed message '{}' cut after {} bytes: segment {} is answered with {}", streams[si].0, k, j, hex(&data[..data.len().min(40)])),
+                            cfg: cfgc.clone(),
+                            cmds: it.cmds[..=j].to_vec(),
+                            idx: it.idx,
+                            stage: "reply-typed-cuts".into(),
+                        });
+                        break;
+                    }
+                }
+            },
+            &mut rep.sink,
+        );
+        rep.stage("reply-typed-cuts", "7 reply-typed messages (portmapper DUMP replies with null / AUTH_SHORT / AUTH_SYS-flavoured verifiers, SMB1 / SMB2 with the reply flag, a 276-byte STUN success response) whole and cut at every offset on a TCP connection: no segment answered with data", plan.len() as u64, t0);
+    }
     rep.states = rep.sink.classes.len() as u64;
 }
